@@ -3,6 +3,7 @@ package props
 import (
 	"fmt"
 	"reflect"
+	"strconv"
 	"strings"
 	"testing"
 	"time"
@@ -145,7 +146,10 @@ func genC06(t *rapid.T) C06Case {
 	if rapid.Bool().Draw(t, "proxy") {
 		a.HasProxy = true
 		if rapid.Bool().Draw(t, "countSet") {
-			a.ProxyCount = h.S(fmt.Sprint(rapid.OneOf(rapid.IntRange(0, 3), rapid.IntRange(0, 1<<31-1)).Draw(t, "count")))
+			n := rapid.OneOf(rapid.IntRange(0, 3), rapid.IntRange(0, 1<<31-1), rapid.SampledFrom([]int{8, 9, 10, 64, 100, 777})).Draw(t, "count")
+			// every lexical form of the same xs:nonNegativeInteger: leading zeros, a sign, surrounding blanks
+			spell := rapid.SampledFrom([]string{"%d", "%d", "%d", "0%d", "00%d", "+%d", " %d ", "\n%d\t", "+0%d", "%03d", "%010d"}).Draw(t, "countSpelling")
+			a.ProxyCount = h.S(fmt.Sprintf(spell, n))
 		}
 		np := rapid.IntRange(0, 3).Draw(t, "nProxyAud")
 		for j := 0; j < np; j++ {
@@ -276,7 +280,12 @@ func checkC06(c C06Case) h.Outcome {
 	if c.First.HasProxy {
 		wantCount := 0
 		if c.First.ProxyCount.Set {
-			fmt.Sscan(c.First.ProxyCount.V, &wantCount)
+			n, perr := strconv.ParseInt(strings.TrimSpace(c.First.ProxyCount.V), 10, 64) // decimal, whatever the spelling
+			if perr != nil {
+				o.Violation = h.V("harness/count", "harness produced an unparsable Count %q", c.First.ProxyCount.V)
+				return o
+			}
+			wantCount = int(n)
 		}
 		if w.ProxyRestriction.Count != wantCount {
 			o.Violation = h.V("proxy-count-mismatch", "Count=%d want %d", w.ProxyRestriction.Count, wantCount)
@@ -345,7 +354,7 @@ func TestC06_Grid(t *testing.T) {
 			c.First.OneTimeUse = i%2 == 0
 			c.First.HasProxy = i%3 == 0
 			if i%6 == 0 {
-				c.First.ProxyCount = h.S(fmt.Sprint(i))
+				c.First.ProxyCount = h.S(fmt.Sprintf([]string{"%d", "0%d", "+%d", " %d ", "%04d"}[(i/6)%5], i))
 				c.First.ProxyAudience = []string{"urn:a", uri}
 			}
 			finishC06(&c, func(err error) { t.Fatalf("harness: %v", err) })
